@@ -95,8 +95,8 @@ pub mod lab {
         "weak_query_on_dead",
         "counts_checked_after_collection",
         "empty_table_drop_while_others_recorded",
-        "dead_clone_uninit_sentinel",
-        "dead_clone_zero_sentinel",
+        "dead_clone_of_already_destroyed_peer",
+        "dead_clone_of_condemned_peer_not_yet_destroyed",
         "panic_in_zero_count_path",
         "panic_in_plain_path",
         "weak_inside_value",
@@ -426,7 +426,16 @@ pub fn on_hdrop_begin(target: Oid, h: &Rc<Node>) {
             b.rule = 2;
             b.obligation = vec![target];
             count(ctr::OBLIG_B, 1);
-        } else if wd.cfg.mode != Mode::Elide {
+        } else if wd.cfg.mode == Mode::Elide {
+            // stale records make rule A unsound as an oracle; the documented
+            // algorithm's decision is used as a *prediction* only (rule 3: never
+            // checked), so that drops of members' handles to each other during
+            // the teardown are recognised as covered
+            if let Some(g) = m.documented_condemns(target) {
+                b.rule = 3;
+                b.obligation = g;
+            }
+        } else {
             if let Some(c) = m.rule_a(target) {
                 count(ctr::OBLIG_A, 1);
                 for &t in &c {
@@ -451,9 +460,10 @@ pub fn on_hdrop_begin(target: Oid, h: &Rc<Node>) {
             }
         }
         if wd.cfg.cost_checks {
-            // C14: "bookkeeping empty" is taken from the table snapshot
-            let empty = Rc::__verif_links(h).is_empty();
-            count(ctr::SNAPSHOTS, 1);
+            // C14: "currently has no recorded adoption" is taken from the
+            // ledger (a table entry with count zero is not a recorded adoption)
+            let _ = h;
+            let empty = !b.had_records;
             b.cost = Cost {
                 table_empty: empty,
                 trace_calls: cactusref::__verif::counters()[0],
@@ -598,7 +608,7 @@ pub fn on_hdrop_end(target: Oid, panicking: bool) {
         drop(m);
         violate(View::Mem, &msg);
     }
-    if !b.obligation.is_empty() {
+    if !b.obligation.is_empty() && b.rule != 3 {
         let missing: Vec<Oid> = b.obligation.iter().copied().filter(|&t| m.objs[t as usize].st == St::Alive).collect();
         if !missing.is_empty() {
             let msg = if b.rule == 2 {
